@@ -548,6 +548,53 @@ def run_squeuecmd(rows, query):
     return rec
 
 
+def squeuemulti_inputs(rng, count):
+    """One submitter round polling several tracked batches through one status collector (JobQueue.process_queue): the
+    scheduler holds some of them in arbitrary states; the status query may fail (every attempt) for the whole round."""
+    ids = ["100", "101", "102"]
+    for st in STATES:
+        for nfail in (0, 1):
+            yield [["100", "RUNNING"], ["101", st]], ["100", "101"], nfail
+            yield [["101", st], ["102", "PENDING"]], ["100", "101", "102"], nfail
+    for _ in range(count):
+        n = rng.randint(0, 3)
+        rows = [[i, STATES[rng.randrange(len(STATES))]] for i in rng.sample(ids, n)]
+        yield rows, rng.sample(ids, rng.randint(2, 3)), rng.choice([0, 0, 1])
+
+
+def run_squeuemulti(rows, queries, nfail):
+    """The batches a round tracks, asked one after the other through one HpcStatusCollector like JobQueue.process_queue does
+    (the round ends at the first exception).  nfail = 1: the scheduler's answer to the status query is an error, every time."""
+    import jade.hpc.slurm_manager as sm
+    from jade.hpc.hpc_submitter import AsyncHpcSubmitter, HpcStatusCollector
+    from jade.models import HpcConfig, SlurmConfig
+
+    def stub(cmd, output=None, **kw):
+        if nfail:
+            if output is not None:
+                output["stdout"], output["stderr"] = "", "slurm_load_jobs error: Unable to contact slurm controller (connect failure)"
+            return 1
+        rc, out, err = squeue_sim(rows, cmd)
+        if output is not None:
+            output["stdout"], output["stderr"] = out, err
+        return rc
+    orig = sm.run_command
+    sm.run_command = stub
+    rec = {"kind": "squeuemulti", "rows": rows, "queries": queries, "nfail": nfail, "results": [], "err": ""}
+    try:
+        mgr = sm.SlurmManager(HpcConfig(hpc_type="slurm", hpc=SlurmConfig(account="a")))
+        coll = HpcStatusCollector(mgr, 10)
+        try:
+            for qid in queries:
+                job = AsyncHpcSubmitter.create_from_id(mgr, coll, qid)
+                rec["results"].append([qid, bool(job.is_complete())])
+        except Exception as e:   # noqa
+            rec["err"] = type(e).__name__
+    finally:
+        sm.run_command = orig
+    return rec
+
+
 SUBMIT = {"ok": (0, "Submitted batch job 123\n"), "ok_extra": (0, "sbatch: note\nSubmitted batch job 45 on cluster x\n"),
           "empty": (0, ""), "garbage": (0, "error: something else 99\n"), "nonum": (0, "Submitted batch job \n"),
           "rc1": (1, "Submitted batch job 7\n"), "rc1_empty": (1, "")}
